@@ -24,11 +24,13 @@
 // in real life, feeding the decoder with artificial data can confuse the
 // logic" - therefore never mixed in one run.)
 //
-// Handler population (any mode): up to four handlers (slots, distinct functions).  Slot 0 always listens to
-// NETWORK | NETWORK_ID | TTX_PAGE (the model's view of the decoder's station), its other event types and the other
-// slots' masks are seeded and change at script points ("handler" ops: vbi_event_handler_register / _unregister /
-// the deprecated _add / _remove).  One event raised by the library is evaluated once, at its delivery to the
-// lowest subscribed slot.
+// Handler population (any mode): up to four handlers (slots, distinct functions) whose event masks are seeded and
+// change at script points ("handler" ops: vbi_event_handler_register / _unregister / the deprecated _add / _remove).
+// Two flavours: a complete observer in slot 0 (always NETWORK | NETWORK_ID | TTX_PAGE) plus clients that come and go;
+// or (knob h0_free) specialised clients only - a recorder listening to PROG_ID, a clock listening to LOCAL_TIME, a
+// video window listening to ASPECT, NETWORK and NETWORK_ID listeners that come and go, runs in which nobody listens to
+// NETWORK / NETWORK_ID / TTX_PAGE at all.  One event raised by the library is evaluated once, at its delivery to the
+// lowest subscribed slot.  What the model may conclude without a NETWORK listener: see net_wit.
 //
 // Real re-tunes (mode 1): a station change accompanied by dropped frames ("gap" next to "station").  A gap makes the
 // decoder suspect a channel switch (vbi_decode() documentation); the model grants ONE assumed switch per suspicion
@@ -255,7 +257,12 @@ struct XdsRef {
 // ------------------------------------------------------------------ world --
 struct Line {
   int kind = L_TTX;
-  bool valid = true;     // reception usable (8/30-2: no uncorrectable Hamming error)
+  bool valid = true;     // reception usable as an identifier reception (no uncorrectable Hamming error in a byte the identifier is read from, designation included)
+  bool pid_valid = true; // 8/30-2: usable as a programme identification (no uncorrectable error in any of the 13 PDC bytes)
+  // An uncorrectable byte elsewhere in the packet (initial page; format 2: a PDC byte the identifier is not read from): the
+  // identifier arrived intact, a receiver may use or discard the packet, the statement does not say.  The reception
+  // counts for the model (lenient side of "received again unchanged"), what the decoder held before stays acceptable.
+  bool undecided = false;
   bool faulted = false;
   int cni = 0;           // received identifier (VPS after the documented 0xDC3 rule)
   Pid pid;               // VPS / 8/30-2
@@ -346,6 +353,16 @@ struct C13 : World {
         }
         prev = &o;
       }
+      // Names / call letters that are the beginning of the previous station's ("PBS Kids" -> "PBS", "WNBC" -> "WNB"):
+      // sixth station argument (absent / 0 = complete strings), own random stream.
+      Rng ry(seed, "xds-prefixes");
+      prev = nullptr;
+      for (auto& o : p.ops) {
+        if (o.kind != "station") continue;
+        o.a.push_back(0);
+        if (prev && prev->a[5] == 0 && ry.chance(1, 5)) { o.a[0] = prev->a[0]; o.a[1] = prev->a[1]; o.a[4] = prev->a[4]; o.a[5] = 1 + (int64_t)ry.below(3); }
+        prev = &o;
+      }
     }
     if (mode == 1 && r.chance(2, 3)) { Op o; o.task = 0; o.kind = "gap"; o.a = {1 + (int64_t)r.below(60)}; p.ops.push_back(o); wait(10, 60); }
     wait(4, 30);
@@ -428,12 +445,44 @@ struct C13 : World {
       }
     }
     {
-      // Handler population: which event types slot 0 listens to besides NETWORK | NETWORK_ID | TTX_PAGE, further
-      // handlers registered / re-registered with another mask / removed at script points.  Mask bits: 0 NETWORK,
-      // 1 NETWORK_ID, 2 PROG_ID, 3 LOCAL_TIME, 4 ASPECT, 5 PROG_INFO, 6 TTX_PAGE.
+      // Fault positions (fourth rx argument; absent / 0 = the older position rule): Hamming faults of the 8/30 packets
+      // hit every protected byte (designation, initial page, format 2: the 13 PDC bytes) with the same probability,
+      // garbled 8/30 format 1 digits every byte of time offset, MJD and UTC.
+      Rng rf(seed, "fault-positions");
+      for (auto& o : p.ops) if (o.kind == "rx") o.a.push_back(1 + (int64_t)rf.below(1 << 20));
+    }
+    {
+      // Handler population: which event types the handlers (slots 0-3) listen to, registered / re-registered with another
+      // mask / removed at script points.  Mask bits: 0 NETWORK, 1 NETWORK_ID, 2 PROG_ID, 3 LOCAL_TIME, 4 ASPECT,
+      // 5 PROG_INFO, 6 TTX_PAGE.  Older flavour: slot 0 always keeps NETWORK | NETWORK_ID | TTX_PAGE (a complete observer
+      // plus clients that come and go).  Knob h0_free: slot 0 is a client like the others (525-line runs: it keeps
+      // NETWORK, see run()); populations of specialised clients (a recorder: PROG_ID only; a clock: LOCAL_TIME only; a
+      // video window: ASPECT only ...), runs in which nobody listens to NETWORK / NETWORK_ID / TTX_PAGE.
       Rng rh(seed, "handlers");
       if (rh.chance(1, 2)) {
         p.knobs["h0_mask"] = (int64_t)rh.below(128);
+        bool no_station = false;
+        Rng rq(seed, "handlers-free");
+        if (rq.chance(3, 5)) {
+          p.knobs["h0_free"] = 1;
+          no_station = rq.chance(1, 3);  // a third: nobody ever listens to NETWORK / NETWORK_ID
+          auto sparse = [&]() -> int64_t {
+            int64_t m;
+            switch (rq.below(4)) {
+              case 0: case 1: m = (int64_t)1 << rq.below(7); break;                          // one event type
+              case 2: m = ((int64_t)1 << rq.below(7)) | ((int64_t)1 << rq.below(7)); break;  // two
+              default: m = (int64_t)(rq.below(128) & rq.below(128)); break;
+            }
+            if (no_station) { m &= 0x7C; if (!m) m = (int64_t)1 << (2 + rq.below(5)); }
+            return m;
+          };
+          p.knobs["h0_mask"] = sparse();
+          // further clients present from the start
+          int n0 = (int)rq.below(4);
+          std::vector<Op> pre;
+          for (int i = 0; i < n0; i++) { Op o; o.task = 0; o.kind = "handler"; o.a = {1 + (int64_t)rq.below(3), sparse(), (int64_t)rq.below(2)}; pre.push_back(o); }
+          p.ops.insert(p.ops.begin(), pre.begin(), pre.end());
+        }
         int n = 1 + (int)rh.below(5);
         for (int i = 0; i < n; i++) {
           Op o; o.task = 0; o.kind = "handler";
@@ -447,6 +496,7 @@ struct C13 : World {
           o.a = {(int64_t)rh.below(4), m, (int64_t)rh.below(2)};  // slot, mask, API (0 register / unregister, 1 deprecated add / remove)
           insert_script_op(rh, o);
         }
+        if (no_station) for (auto& o : p.ops) if (o.kind == "handler") o.a[1] &= 0x7C;
       }
     }
     return p;
@@ -480,6 +530,27 @@ struct C13 : World {
   // ASPECT (PROG_INFO) announcement and kept the type in their mask.  Without such a witness a fresh announcement is
   // legitimate (accepted, not demanded).
   bool asp_wit[NSLOT] = {false, false, false, false}, pi_wit[NSLOT] = {false, false, false, false};
+  // The same for the station.  net_wit: slots registered for NETWORK ever since the model's view of the announced
+  // station (any_net, last_net_nuid / name / call) was established (start of the run: nothing announced; every NETWORK
+  // event).  While there is such a witness the model knows what the decoder has announced: repeat, change and cache
+  // clauses apply.  Without one (nobody listens to NETWORK, or the only listeners joined later) the decoder still
+  // identifies stations internally (vbi_decode_vps() and the XDS decoder run whatever handlers exist), announces them to
+  // nobody and resets itself and its cache on a change, which the model cannot observe: the clauses that DEMAND network
+  // events or a particular cache content are off, pages count as "may be cached", unobserved resets are taken into
+  // account for the aspect ratio memory; fidelity, debounce and from-invalid clauses of every observable event stay on.
+  // nid_wit: slots registered for NETWORK_ID ever since the last NETWORK_ID event (quiescence clause).
+  bool net_wit[NSLOT] = {false, false, false, false}, nid_wit[NSLOT] = {false, false, false, false};
+  bool net_view_ok() const { return any_wit(net_wit); }
+  void net_view_lost() {
+    for (int p : must_pages) maybe_pages.insert(p);
+    must_pages.clear(); pending_drop = false; pi_known = false; wss_live = 0;
+    ctx->count("network_view_lost");
+  }
+  void net_view_established() { for (int k = 0; k < NSLOT; k++) net_wit[k] = (hmask[k] & VBI_EVENT_NETWORK) != 0; }
+  std::map<int, int> hyp[3];
+  std::set<int> alt[3];   // identifier values the decoder may hold for a carrier besides last[] (undecided receptions)
+  bool was_undecided[3] = {false, false, false};
+  int observed_events = 0;
   // "announcements are faithful", read as bounded liveness: what a client that has listened to ASPECT events without
   // interruption believes (the last ASPECT event, revoking blank events included; the documented default - full format
   // 4:3, nothing known - before the first) must come to equal the transmitted WSS word.  view_wit: slots registered for
@@ -504,8 +575,10 @@ struct C13 : World {
   static void h3(vbi_event* ev, void*) { on_event(3, ev); }
   static vbi_event_handler slot_fn(int s) { static const vbi_event_handler f[NSLOT] = {h0, h1, h2, h3}; return f[s]; }
   static const unsigned MANDATORY = VBI_EVENT_NETWORK | VBI_EVENT_NETWORK_ID | VBI_EVENT_TTX_PAGE;
-  // knob net_churn (never generated; set by hand-written replay files only): slot 0 keeps NETWORK | TTX_PAGE, so that
-  // NETWORK_ID can be enabled afresh while a NETWORK handler stays registered (see the report on vbi_event_enable())
+  // what slot 0 always keeps: absent knobs (older plans) NETWORK | NETWORK_ID | TTX_PAGE; knob net_churn (hand-written
+  // replay of the vbi_event_enable() defect, now a regression replay) NETWORK | TTX_PAGE; knob h0_free: nothing in
+  // 625-line runs, NETWORK in 525-line runs (there the model has to see every decoder reset: a call letter packet in
+  // transmission across a reset may be lost, see call_open_uncertain)
   unsigned mandatory = MANDATORY;
   static unsigned bits_to_mask(int64_t b) {
     static const unsigned t[7] = {VBI_EVENT_NETWORK, VBI_EVENT_NETWORK_ID, VBI_EVENT_PROG_ID, VBI_EVENT_LOCAL_TIME, VBI_EVENT_ASPECT, VBI_EVENT_PROG_INFO, VBI_EVENT_TTX_PAGE};
@@ -520,7 +593,7 @@ struct C13 : World {
     flush();  // between frames
     int slot = (int)(llabs(op.arg(0)) % NSLOT);
     unsigned m = bits_to_mask(op.arg(1) % 128);
-    if (slot == 0) m |= mandatory;  // the model's view of the decoder's station must not be interrupted
+    if (slot == 0) m |= mandatory;
     bool old_api = llabs(op.arg(2)) & 1;
     ctx->log("handler slot %d mask %x -> %x (%s)", slot, hmask[slot], m, old_api ? "add/remove" : "register/unregister");
     budget_begin("vbi_event_handler_register", 1000000);
@@ -537,7 +610,23 @@ struct C13 : World {
     if ((before & both) && (before & both) != both && (after & both) == both) ctx->count("handler_adds_other_proginfo_event");
     if (!(before & both) && (after & both)) ctx->count("handler_proginfo_events_enabled_afresh");
     if (hmask[slot] != m) ctx->count("fault_handler_change");
+    unsigned netpair = VBI_EVENT_NETWORK | VBI_EVENT_NETWORK_ID;
+    if ((before & netpair) && !(after & netpair)) ctx->count("handler_nobody_listens_to_network");
+    if (!(before & netpair) && (after & netpair)) {
+      // Nobody was listening to the station events: whatever identifiers arrived meanwhile need not have been taken in
+      // (8/30 packets are not examined for them then), the first listeners are told everything afresh: every carrier
+      // counts as revoked (the decoder holds nothing for it until its next reception).
+      for (int k = 0; k < 3; k++) blanked[k] = true;
+      dirty = true; xds_dirty = true;
+      ctx->count("handler_network_events_enabled_afresh");
+    }
     hmask[slot] = m;
+    if (!(m & VBI_EVENT_NETWORK) && net_wit[slot]) { net_wit[slot] = false; if (!net_view_ok()) net_view_lost(); }
+    if (!(m & VBI_EVENT_NETWORK_ID) && nid_wit[slot]) {
+      nid_wit[slot] = false;
+      // nobody is left who heard the last NETWORK_ID: announcing every carrier's identifier afresh is legitimate (not demanded)
+      if (!any_wit(nid_wit)) { dirty = true; xds_dirty = true; for (int k = 0; k < 3; k++) blanked[k] = true; }
+    }
     if (!(m & VBI_EVENT_ASPECT)) asp_wit[slot] = false;
     if (!(m & VBI_EVENT_PROG_INFO)) pi_wit[slot] = false;
     if (!(m & VBI_EVENT_ASPECT)) view_wit[slot] = false;
@@ -576,6 +665,7 @@ struct C13 : World {
       default: return;  // TTX_PAGE etc.
     }
     if (!w.in_decode) { w.ctx->fail("oracle:c13-event-outside-decode", "event %d raised outside vbi_decode()", ev->type); return; }
+    w.observed_events++;
     if (w.cur_line < 0) w.pre_events.push_back(e); else w.line_events.push_back(e);
   }
 
@@ -609,15 +699,33 @@ struct C13 : World {
         // be met for this carrier by a new NETWORK_ID.  So the first reception on EACH revoked carrier (not only the first
         // line after the blank event) counts as news; the reception history for the debounce clause is kept (lenient side).
         bool revoked = blanked[c];
-        if (changed) { streak[c] = 1; dirty = true; }
-        else { streak[c]++; if (revoked) { dirty = true; ctx->count("reception_after_revocation"); } else if (!dirty) quiet_receptions++; }
-        have[c] = true; last[c] = L.cni; blanked[c] = false;
+        // the decoder may have discarded the previous (undecided) reception: for it this one is the news
+        if (was_undecided[c]) dirty = true;
+        if (changed) dirty = true;
+        else { if (revoked) { dirty = true; ctx->count("reception_after_revocation"); } else if (!dirty) quiet_receptions++; }
+        {
+          // "received again unchanged" over every reading of the undecided receptions (each one taken in or discarded):
+          // value -> longest possible run of identical receptions ending now; a decided reception leaves one entry
+          std::map<int, int>& H = hyp[c]; std::map<int, int> N;
+          N[L.cni] = 1;
+          for (auto& h : H) if (h.first == L.cni) N[L.cni] = std::max(N[L.cni], h.second + 1);
+          if (L.undecided) for (auto& h : H) N[h.first] = std::max(N[h.first], h.second);
+          H.swap(N);
+          streak[c] = H[L.cni];
+        }
+        if (L.undecided) {
+          // what the decoder held before stays possible (and the revocation stands if it discards the packet)
+          alt[c].insert(have[c] ? last[c] : 0); if (revoked || !have[c]) alt[c].insert(0);
+          ctx->count("reception_undecided");
+        } else { alt[c].clear(); blanked[c] = false; }
+        was_undecided[c] = L.undecided;
+        have[c] = true; last[c] = L.cni;
         if (c == C_VPS) L.pid_seen_before = vps_pids.count(std::make_tuple(L.cni, L.pid.pil, L.pid.pcs, L.pid.pty)) > 0;
         break;
       }
       case L_WSS:
         if (wss_have && wss_last == L.word) { wss_streak++; wss_live++; } else { wss_streak = 1; wss_live = 1; }
-        if (relaxed) wss_live = 0;
+        if (relaxed || !net_view_ok()) wss_live = 0;  // (a station change nobody can observe makes the decoder start afresh)
         wss_have = true; wss_last = L.word;
         break;
       case L_XDS: {
@@ -685,7 +793,7 @@ struct C13 : World {
   // the assumed switch was executed: blank NETWORK event not raised by an identifier reception
   void assumed_switch_executed() {
     net_epoch++;
-    any_net = true; last_net_nuid = 0; last_net_name.clear(); last_net_call.clear();
+    any_net = true; last_net_nuid = 0; last_net_name.clear(); last_net_call.clear(); net_view_established();
     aspect_known = false; pi_known = false; wss_live = 0;
     for (int k = 0; k < 3; k++) blanked[k] = true;
     dirty = true;
@@ -708,8 +816,9 @@ struct C13 : World {
     static const char* fn[3] = {"cni_vps", "cni_8301", "cni_8302"};
     for (int k = 0; k < 3; k++) {
       bool ok;
+      // without a NETWORK witness a revocation (station lost: every identifier forgotten) may have passed unobserved
       if (k == c) ok = f[k] == last[k] || (line_blank && f[k] == 0);
-      else ok = (have[k] && f[k] == last[k]) || ((!have[k] || blanked[k] || relaxed || line_blank) && f[k] == 0);
+      else ok = (have[k] && f[k] == last[k]) || ((!have[k] || blanked[k] || relaxed || line_blank || !net_view_ok()) && f[k] == 0) || alt[k].count(f[k]) > 0;
       if (!ok) { ctx->fail("oracle:c13-network-fidelity", "%s on %s line: %s = 0x%x, most recent reception on that carrier 0x%x%s", what, kind_name[c], fn[k], f[k], have[k] ? last[k] : 0, have[k] ? "" : " (none)"); return false; }
     }
     if (n.call[0]) { ctx->fail("oracle:c13-network-fidelity", "%s carries call letters '%s', none were transmitted", what, (const char*)n.call); return false; }
@@ -728,9 +837,20 @@ struct C13 : World {
     bool line_blank = false, saw_net = false, saw_blank_aspect = false;
     int n_netid = 0, n_lt = 0, n_pid = 0;
     bool confirmed = L.valid && streak[c] >= 2;
+    bool view = net_view_ok();  // the model knows which station the decoder has announced
+    {
+      // Nobody has been listening to NETWORK: when an identifier that is not a table station is confirmed the decoder may
+      // revoke an identified station (blank NETWORK event, accepted below when observed) unobserved: every identifier is
+      // forgotten and announced afresh.
+      int id;
+      if (!view && confirmed && !lookup(c, last[c], &id)) { line_blank = true; for (int k = 0; k < 3; k++) if (k != c) blanked[k] = true; ctx->count("unobserved_revocation_possible"); }
+    }
     for (Ev& e : evs) {
       if (ctx->failed) return;
-      if (!L.valid) { ctx->fail("oracle:c13-event-from-invalid", "event %d raised by an 8/30 format 2 packet with an uncorrectable Hamming error", e.type); return; }
+      if (!L.valid || (e.type == VBI_EVENT_PROG_ID && !L.pid_valid)) {
+        ctx->fail("oracle:c13-event-from-invalid", "event %d raised by an 8/30 format %d packet with an uncorrectable Hamming error in a byte the event is read from", e.type, c == C_8301 ? 1 : 2);
+        return;
+      }
       switch (e.type) {
         case VBI_EVENT_NETWORK: {
           if (net_blank(e.net)) {
@@ -738,22 +858,25 @@ struct C13 : World {
             // not a table station was confirmed while a station was identified; a second blank in the same line is
             // accepted too (the statement counts events for identified stations only)
             int id;
-            bool ok = relaxed || line_blank || (confirmed && !lookup(c, last[c], &id) && any_net && last_net_nuid != 0);
+            bool ok = relaxed || line_blank || (confirmed && !lookup(c, last[c], &id) && (!view || (any_net && last_net_nuid != 0)));
             if (!ok) { ctx->fail(confirmed ? "oracle:c13-network-blank" : "oracle:c13-network-early", "blank NETWORK event on %s line (streak %d, value 0x%x) revokes the identified station", kind_name[c], streak[c], last[c]); return; }
-            if (!line_blank) { network_changed(last_net_nuid != 0, false); ctx->count("blank_network"); }
-            line_blank = true; saw_net = true; any_net = true; last_net_nuid = 0; last_net_name.clear();
+            if (!saw_net) { network_changed(view && last_net_nuid != 0, false); ctx->count("blank_network"); }
+            line_blank = true; saw_net = true; any_net = true; last_net_nuid = 0; last_net_name.clear(); net_view_established();
             for (int k = 0; k < 3; k++) blanked[k] = true;
             break;
           }
           if (!confirmed) { ctx->fail("oracle:c13-network-early", "NETWORK (nuid %u) on %s line after %d reception(s) of 0x%x in a row: not received again unchanged", e.net.nuid, kind_name[c], streak[c], last[c]); return; }
           if (!check_cni_payload(e.net, c, line_blank, "NETWORK")) return;
-          if (any_net && e.net.nuid == last_net_nuid) { ctx->fail("oracle:c13-network-repeat", "NETWORK raised again for nuid %u '%s' although the identified station did not change", e.net.nuid, (const char*)e.net.name); return; }
+          // "not announced again": to a handler that heard the last NETWORK event and has listened ever since
+          if (view && any_net && e.net.nuid == last_net_nuid) { ctx->fail("oracle:c13-network-repeat", "NETWORK raised again for nuid %u '%s' although the identified station did not change", e.net.nuid, (const char*)e.net.name); return; }
+          if (!view) ctx->count("network_event_without_witness");
           {
-            bool from_id = any_net && last_net_nuid != 0, to_id = e.net.nuid != 0;
+            // without a witness the station announced before is unknown: first identification or change, the cache may or may not be dropped
+            bool from_id = view && any_net && last_net_nuid != 0, to_id = e.net.nuid != 0;
             network_changed(from_id, to_id);
             if (relaxed && from_id && to_id) resolve_suspicion(c, "suspicion_resolved_by_station_change");
           }
-          any_net = true; last_net_nuid = e.net.nuid; saw_net = true;
+          any_net = true; last_net_nuid = e.net.nuid; saw_net = true; net_view_established();
           break;
         }
         case VBI_EVENT_NETWORK_ID: {
@@ -764,13 +887,17 @@ struct C13 : World {
           if (!relaxed && !dirty && !line_blank) { ctx->fail("oracle:c13-netid-repeat", "NETWORK_ID announced again on %s line while every carrier kept sending the same values since the last announcement", kind_name[c]); return; }
           if (dirty && any_net) ctx->count("netid_reannounced");
           dirty = false;
-          if (e.net.nuid != 0 && !(any_net && e.net.nuid == last_net_nuid)) { ctx->fail("oracle:c13-change-no-network", "NETWORK_ID announces station %u but no NETWORK event was raised for the change (last NETWORK nuid %u)", e.net.nuid, last_net_nuid); return; }
+          for (int k = 0; k < NSLOT; k++) nid_wit[k] = (hmask[k] & VBI_EVENT_NETWORK_ID) != 0;
+          // demanded only while somebody who would have received the NETWORK event has been listening all the time
+          if (net_view_ok() && e.net.nuid != 0 && !(any_net && e.net.nuid == last_net_nuid)) { ctx->fail("oracle:c13-change-no-network", "NETWORK_ID announces station %u but no NETWORK event was raised for the change (last NETWORK nuid %u)", e.net.nuid, last_net_nuid); return; }
           break;
         }
         case VBI_EVENT_ASPECT:
           // only the revoking blank event of a channel switch may come from an identification line
           if (!asp_blank(e.asp)) { ctx->fail("oracle:c13-aspect-spurious", "ASPECT %d-%d raised by a %s line", e.asp.first_line, e.asp.last_line, kind_name[c]); return; }
           saw_blank_aspect = true; ctx->count("aspect_blank"); set_view(e.asp);
+          // (the station change behind it may be unobservable: the decoder starts afresh as after an observed one)
+          if (!view) { aspect_known = false; pi_known = false; wss_live = 0; ctx->count("aspect_blank_unobserved_change"); }
           break;
         case VBI_EVENT_LOCAL_TIME:
           if (c != C_8301) { ctx->fail("oracle:c13-event-spurious", "LOCAL_TIME raised by a %s line", kind_name[c]); return; }
@@ -803,7 +930,7 @@ struct C13 : World {
           return;
       }
     }
-    if (saw_blank_aspect && !saw_net && !relaxed) { ctx->fail("oracle:c13-aspect-spurious", "blank ASPECT event on %s line without a station change", kind_name[c]); return; }
+    if (saw_blank_aspect && !saw_net && !relaxed && view) { ctx->fail("oracle:c13-aspect-spurious", "blank ASPECT event on %s line without a station change", kind_name[c]); return; }
     if (line_blank) dirty = true;  // every identifier was revoked: re-announcement accepted (and once per revoked carrier, see receive())
     if (L.faulted && L.valid && !saw_net) ctx->count("deviation_survived");
     if (c == C_VPS && L.valid) vps_pids.insert(std::make_tuple(L.cni, L.pid.pil, L.pid.pcs, L.pid.pty));
@@ -847,7 +974,7 @@ struct C13 : World {
           ctx->count("proginfo_without_aspect_handler");
         }
         if (!relaxed && pi_known && any_wit(pi_wit) && asp_same(e.pi_asp, last_pi)) { ctx->fail("oracle:c13-aspect-repeat", "PROG_INFO announced the aspect ratio again although unchanged (WSS word %04x)", L.word); return; }
-        last_pi = e.pi_asp; pi_known = true;
+        last_pi = e.pi_asp; pi_known = net_view_ok();  // a station change resets the programme information without an event: the memory holds while such changes are observable
         for (int k = 0; k < NSLOT; k++) pi_wit[k] = (hmask[k] & VBI_EVENT_PROG_INFO) != 0;
       } else { ctx->fail("oracle:c13-event-spurious", "event %d raised by a WSS line", e.type); return; }
     }
@@ -895,12 +1022,13 @@ struct C13 : World {
         if (any_net && nm == last_net_name && cl == last_net_call) { ctx->fail("oracle:c13-network-repeat", "NETWORK raised again for '%s' / '%s' although the identified station did not change", nm.c_str(), cl.c_str()); return; }
         if (any_net) ctx->count(nm == last_net_name ? "xds_network_same_name_new_call" : cl == last_net_call ? "xds_network_new_name_same_call" : "xds_network_new_name_new_call");
         network_changed(any_net, true);
-        any_net = true; last_net_name = nm; last_net_call = cl; last_net_nuid = e.net.nuid;
+        any_net = true; last_net_name = nm; last_net_call = cl; last_net_nuid = e.net.nuid; net_view_established();
         if (xref.pk[2 * 256 + 2].active) call_open_uncertain = true;
       } else {
         if (++n_netid > 1) { ctx->fail("oracle:c13-netid-repeat", "two NETWORK_ID events from one XDS packet"); return; }
         if (!xds_dirty) { ctx->fail("oracle:c13-netid-repeat", "NETWORK_ID '%s' announced again while the same name and call letters kept arriving", nm.c_str()); return; }
         xds_dirty = false;
+        for (int k = 0; k < NSLOT; k++) nid_wit[k] = (hmask[k] & VBI_EVENT_NETWORK_ID) != 0;
       }
     }
     // Change clause ("When the identified station does change, exactly one network event is raised and the cached pages of
@@ -1002,8 +1130,8 @@ struct C13 : World {
     sl.push_back(s); lines.push_back(L);
     switch (L.kind) {
       case L_VPS: ctx->log("tx vps cni=%x pil=%x pcs=%d pty=%x%s", L.cni, L.pid.pil, L.pid.pcs, L.pid.pty, L.faulted ? " FAULT" : ""); break;
-      case L_8301: ctx->log("tx 8301 cni=%x time=%lld ok=%d%s", L.cni, (long long)L.time, L.time_ok, L.faulted ? " FAULT" : ""); break;
-      case L_8302: ctx->log("tx 8302 cni=%x pil=%x valid=%d%s", L.cni, L.pid.pil, L.valid, L.faulted ? " FAULT" : ""); break;
+      case L_8301: ctx->log("tx 8301 cni=%x time=%lld ok=%d valid=%d%s%s", L.cni, (long long)L.time, L.time_ok, L.valid, L.undecided ? " undecided" : "", L.faulted ? " FAULT" : ""); break;
+      case L_8302: ctx->log("tx 8302 cni=%x pil=%x valid=%d pid_valid=%d%s%s", L.cni, L.pid.pil, L.valid, L.pid_valid, L.undecided ? " undecided" : "", L.faulted ? " FAULT" : ""); break;
       case L_WSS: ctx->log("tx wss %04x%s", L.word, L.faulted ? " FAULT" : ""); break;
       case L_XDS: ctx->log("tx xds %02x %02x", L.b0, L.b1); break;
       default: break;
@@ -1044,7 +1172,8 @@ struct C13 : World {
     int c; { SutScope ss; c = vbi_is_cached(dec, pgno, VBI_ANY_SUBNO); }
     if (mag > 1) ctx->count("pages_other_magazines");
     // while a channel switch is suspected the page may be dropped with the assumed switch (and must be with a real one)
-    if (relaxed) { if (c) { maybe_pages.insert(pgno); must_pages.erase(pgno); } return; }
+    // (likewise while nobody has been listening to NETWORK: the decoder changes station and drops its cache unobserved)
+    if (relaxed || !net_view_ok()) { if (c) { maybe_pages.insert(pgno); must_pages.erase(pgno); } return; }
     if (c && epoch == net_epoch) { must_pages.insert(pgno); maybe_pages.erase(pgno); ctx->count("pages_precached"); }
     else ctx->count("page_not_cached_unchecked");  // storing pages is C02's business
   }
@@ -1069,6 +1198,9 @@ struct C13 : World {
       a.name = names[k];
       const char* cl = (v % 4 <= 1) ? calls[k] : (v % 4 == 2) ? calls2[k] : shared[(v / 4) % 2];
       a.call = (mask & 1) ? cl : "";  // stations without call letters exist
+      int tr = (int)(llabs(op.arg(5)) % 4);  // 1: call letters cut to their first three, 2: name cut to its first three, 3: both
+      if ((tr & 1) && a.call.size() > 3) a.call.resize(3);
+      if ((tr & 2) && a.name.size() > 3) a.name.resize(3);
       a.has[0] = true; a.has[1] = !a.call.empty();
       air = a; ctx->log("station xds '%s' '%s'", a.name.c_str(), a.call.c_str());
       return;
@@ -1129,7 +1261,22 @@ struct C13 : World {
     int cni = air.code[C_8301]; Line L; L.kind = L_8301;
     if (f == F_CNI) { int m = arg & 0xFFFF; if (!m) m = 1; cni ^= m; if (cni == 0) cni ^= 0x8000; L.faulted = true; ctx->count("fault_8301_cni"); }
     ttx::Packet p = enc_8301((int)(op.arg(2) & 1), cni, t, air.status);
-    if (f == F_FIELD) { int bit = arg % 48; p.b[12 + bit / 8] ^= (uint8_t)(1 << (bit % 8)); ctx->count("fault_8301_time"); }
+    int pos = (int)(llabs(op.arg(3)) % (1 << 24));  // fault position; 0 (older plans): digits of MJD / UTC only, no Hamming faults
+    if (f == F_FIELD) {
+      int bit = pos > 0 ? (pos - 1) % 56 : arg % 48, base = pos > 0 ? 11 : 12;  // time offset, MJD, UTC
+      p.b[base + bit / 8] ^= (uint8_t)(1 << (bit % 8)); ctx->count("fault_8301_time");
+      if (base + bit / 8 == 11) ctx->count("fault_8301_time_offset");
+    }
+    if ((f == F_HAM1 || f == F_HAM2) && pos > 0) {
+      // Hamming 8/4 protected: designation (byte 2), initial page (bytes 3-8)
+      int byte = 2 + (pos - 1) % 7, b1 = (pos - 1) / 7 % 8, b2 = (b1 + 1 + (pos - 1) / 56 % 7) % 8;
+      if (f == F_HAM1) { p.b[byte] ^= (uint8_t)(1 << b1); ctx->count("fault_8301_ham1"); }  // corrected: received as sent
+      else {
+        p.b[byte] ^= (uint8_t)((1 << b1) | (1 << b2));
+        if (byte == 2) L.valid = false; else L.undecided = true;  // not even recognisable as 8/30 format 1 / only the initial page is lost
+        ctx->count("fault_8301_ham2");
+      }
+    }
     L.cni = cni; L.time_ok = dec_time(p.b, &L.time, &L.east);
     emit(ttx_sliced(p.b, 17), L, 1);
   }
@@ -1141,8 +1288,21 @@ struct C13 : World {
     if (f == F_CNI) { int m = arg & 0xFFFF; if (!m) m = 1; q.cni ^= m; if (q.cni == 0) q.cni ^= 0x8000; if (q.cni == 0x0DC3) q.cni ^= 0x1000; L.faulted = true; ctx->count("fault_8302_cni"); }
     if (f == F_FIELD) { q.pil ^= (arg & 0xFFFFF) ? (arg & 0xFFFFF) : 1; q.pty ^= arg >> 8 & 0xFF; ctx->count("fault_8302_pil"); }
     ttx::Packet p = enc_8302((int)(op.arg(2) & 1), q, air.status);
-    if (f == F_HAM1) { int byte = 2 + arg % 20; p.b[byte] ^= (uint8_t)(1 << (arg / 32 % 8)); ctx->count("fault_ham1"); }  // corrected: received as sent
-    if (f == F_HAM2) { int byte = 2 + arg % 20; int b1 = arg / 32 % 8, b2 = (b1 + 1 + arg / 256 % 7) % 8; p.b[byte] ^= (uint8_t)((1 << b1) | (1 << b2)); L.valid = false; ctx->count("fault_ham2"); }
+    // Hamming 8/4 protected: designation (byte 2), initial page (3-8), PDC (9-21), every byte with the same probability
+    // (fourth argument; older plans: position from the deviation mask)
+    int pos = (int)(llabs(op.arg(3)) % (1 << 24));
+    int hbyte = pos > 0 ? 2 + (pos - 1) % 20 : 2 + arg % 20;
+    int hb1 = pos > 0 ? (pos - 1) / 20 % 8 : arg / 32 % 8, hb2 = (hb1 + 1 + (pos > 0 ? (pos - 1) / 160 : arg / 256) % 7) % 8;
+    if (f == F_HAM1) { p.b[hbyte] ^= (uint8_t)(1 << hb1); ctx->count("fault_ham1"); }  // corrected: received as sent
+    if (f == F_HAM2) {
+      p.b[hbyte] ^= (uint8_t)((1 << hb1) | (1 << hb2));
+      bool cni_byte = hbyte == 11 || hbyte == 12 || hbyte == 17 || hbyte == 18 || hbyte == 19;  // see enc_8302()
+      if (hbyte == 2) { L.valid = false; L.pid_valid = false; }        // not recognisable as 8/30 format 2
+      else if (hbyte <= 8) L.undecided = true;                         // initial page: identifier and label intact
+      else { L.pid_valid = false; if (cni_byte) L.valid = false; else L.undecided = true; }
+      ctx->count("fault_ham2");
+      ctx->count(hbyte == 2 ? "fault_ham2_designation" : hbyte <= 8 ? "fault_ham2_initial_page" : hbyte == 9 ? "fault_ham2_lci_luf_prf" : cni_byte ? "fault_ham2_cni_byte" : "fault_ham2_other_pdc_byte");
+    }
     L.cni = q.cni; L.pid = q;
     emit(ttx_sliced(p.b, 18), L, 2);
   }
@@ -1224,16 +1384,20 @@ struct C13 : World {
     call_open_uncertain = false; call_alts.clear(); xds_dirty = false; stable_names = 0;
     receptions = legit_net = quiet_receptions = 0;
     for (int k = 0; k < NSLOT; k++) { hmask[k] = 0; asp_wit[k] = pi_wit[k] = false; }
-    mandatory = plan.knob("net_churn") ? (unsigned)(VBI_EVENT_NETWORK | VBI_EVENT_TTX_PAGE) : MANDATORY;
+    mandatory = plan.knob("h0_free") ? (mode == 2 ? (unsigned)VBI_EVENT_NETWORK : 0u) : plan.knob("net_churn") ? (unsigned)(VBI_EVENT_NETWORK | VBI_EVENT_TTX_PAGE) : MANDATORY;
     hmask[0] = bits_to_mask(plan.knob("h0_mask", 0x7F) % 128) | mandatory;  // absent: every event type of the property (older plans)
     pi_known = false; memset((void*)&last_pi, 0, sizeof last_pi);
     // before the first announcement: vbi_reset_prog_info()'s documented default (625 line system: full format 4:3, lines 23-310)
     memset((void*)&view, 0, sizeof view); view.first_line = 23; view.last_line = 310; view.ratio = 1.0; view.film_mode = 0; view.open_subtitles = VBI_SUBT_UNKNOWN;
     wss_live = 0; for (int k = 0; k < NSLOT; k++) view_wit[k] = (hmask[k] & VBI_EVENT_ASPECT) != 0;
+    // a fresh decoder has announced nothing: that is what the handlers registered now know
+    for (int k = 0; k < NSLOT; k++) { net_wit[k] = (hmask[k] & VBI_EVENT_NETWORK) != 0; nid_wit[k] = (hmask[k] & VBI_EVENT_NETWORK_ID) != 0; }
+    for (int k = 0; k < 3; k++) { alt[k].clear(); was_undecided[k] = false; hyp[k].clear(); }
+    observed_events = 0;
     Sched sched(c, (uint64_t)plan.knob("sched_seed", (int64_t)plan.seed), (Policy)(llabs(plan.knob("policy")) % 3), (int)plan.knob("pparam"));
     { SutScope ss;
       dec = vbi_decoder_new();
-      vbi_event_handler_register(dec, (int)hmask[0], slot_fn(0), &hmask[0]);
+      if (hmask[0]) vbi_event_handler_register(dec, (int)hmask[0], slot_fn(0), &hmask[0]);
     }
     c.log("handler slot 0 mask %x", hmask[0]);
     const int NT = 5;
@@ -1332,7 +1496,8 @@ struct C13 : World {
     c.count("network_events_accepted", legit_net);
     c.count("quiescent_receptions", quiet_receptions);
     c.count(mode == 0 ? "runs_625_strict" : mode == 1 ? "runs_625_gaps" : "runs_525_xds");
-    c.nontrivial = legit_net >= 1 && receptions >= 20;
+    c.count("events_evaluated", observed_events);
+    c.nontrivial = receptions >= 20 && (legit_net >= 1 || observed_events >= 5);
     c.sim_seconds = ts - 7000.0;
     g = nullptr;
   }
